@@ -25,6 +25,23 @@ CHECKS = {
         note="English rendering (verb forms, quoting) is parsed by the harness, not verified. Searches at comprehension level (see C01).",
         technique="Coq proof + model/implementation correspondence on parsed report lines",
         design="5/C03"),
+    "C11": dict(
+        text="Theorems (Coq, every graph, every rule shape): a regex subject/object gives the same outcome (verdict and report) as naming all matching modules "
+             "(C11_regex_subject/object), a regex matching nothing is an error (C11_no_match_*), a batch of subjects with explicit objects passes iff every "
+             "single-subject rule passes, for all 12 shapes and related modules (C11_batch_subjects), likewise over objects for plain should/should_not "
+             "(C11_batch_objects); the partial-name form has the glob meaning (C11_partial_name via C08_glob). re.match is a Section variable (oracle). "
+             "Tie to /repo: compact rule vs expanded rule(s) both evaluated on the real code (metamorphic), all evaluations compared with the model.",
+        note="Python re on user regexes is an oracle: its truth table over the graph's names is computed with the real re and handed to the model. "
+             "Trusted: Coq kernel, extraction, driver, harness.",
+        technique="Coq proof with regex oracle + metamorphic and model/implementation correspondence",
+        design="5/C11"),
+    "C12": dict(
+        text="Theorems (Coq, EVERY graph and EVERY rule incl. related subjects/objects, regexes, batches): duality, negation and negation_except (single subject/object), "
+             "both should_only decompositions, the 'anything' alias (definitional rewrite, verdict and report), four monotonicity laws under adding an import. "
+             "Tie to /repo: each law evaluated directly on the real code (2-3 real assert_applies calls per instance), every evaluation also compared with the model.",
+        note="Trusted: Coq kernel, extraction, driver, harness. Searches at comprehension level (see C01).",
+        technique="Coq proof (laws of the model) + laws evaluated on the implementation + correspondence",
+        design="5/C12"),
     "C08": dict(
         text="Theorems (Coq, all patterns and all newline-free path strings, no bound): the glob->regex converter always emits a regex of the "
              "modelled fragment that parses back to (leading star, literal text, trailing star), and convert+re.match equals the documented "
